@@ -15,6 +15,37 @@ def gen_sub_case(rng, s):
     dg.make_fragments(rng.randrange(0, 3))
     flds = s["types"]["Subscription"]["fields"]
     f = rng.choice(flds)
+    with_args = [x for x in flds if x.get("args")]
+    if with_args and rng.random() < 0.35:
+        # the source's arguments come from a variable whose RAW value differs from its coerced value: a declared
+        # default with the variable omitted, a single value for a list type, a number for an ID
+        f = rng.choice(with_args)
+        a = rng.choice(f["args"])
+        t = a["type"]
+        kind = s["types"].get(gen.named_of(f["type"]), {"kind": "SCALAR"})["kind"]
+        sub = " { __typename }" if kind in ("OBJECT", "INTERFACE", "UNION") else ""
+        others = " ".join("%s: %s" % (b["name"], gen.lit_sdl(gen.gen_literal(rng, s, b["type"], good=True, nullable=False)))
+                          for b in f["args"] if b is not a and b["type"][0] == "nonnull" and b.get("default") is None)
+        inner = t[1] if t[0] == "nonnull" else t
+        variables = {}
+        lit = gen.gen_literal(rng, s, inner, good=True, nullable=False)
+        if inner[0] == "list" and rng.random() < 0.5:
+            item = inner[1][1] if inner[1][0] == "nonnull" else inner[1]
+            if item[0] == "named":
+                variables["v"] = gen.gen_json(rng, s, item, good=True)       # single value for a list type
+                decl = "$v: %s" % gen.type_sdl(t)
+            else:
+                decl = "$v: %s = %s" % (gen.type_sdl(inner), gen.lit_sdl(lit))
+        else:
+            decl = "$v: %s = %s" % (gen.type_sdl(inner), gen.lit_sdl(lit))        # default applies: variable omitted
+        if variables.get("v", 0) is None:
+            variables.pop("v")
+            decl = "$v: %s = %s" % (gen.type_sdl(inner), gen.lit_sdl(lit))
+        q = "subscription S(%s) { %s(%s: $v %s)%s }" % (decl, f["name"], a["name"], others, sub)
+        orc = execgen.Oracle(s, rng.randrange(1 << 30), 0.05, 0.0)
+        events = [{f["name"]: orc.value(orc.rng_for("ev", i), f["type"], 0)} for i in range(rng.randrange(1, 4))]
+        return {"query": q, "variables": variables, "opname": None, "field": f["name"], "events": events,
+                "oracle_seed": rng.randrange(1 << 30)}
     body = dg.field(f, 0)
     # a root field must not be skipped for the stream to exist; keep directives only below it
     import re
